@@ -346,6 +346,32 @@ CLAIMS["C17"]["text"] += " Segment cases also run on Fallout 76 shapes; partitio
 CLAIMS["C20"]["text"] += " Bounding spheres are also computed for small clouds far from the origin."
 
 
+# round 4 of the seeded changes (DESIGN.md 6.3)
+CLAIMS["C01"]["text"] += (" Further inputs: each sample's model written under the other file versions of its game (Oblivion 10.1.0.106 / "
+                          "10.2.0.0 / 20.0.0.4, also with the tangent space stored inline; Starfield 173), and every synthesised model also "
+                          "stored back to front, so that a sorting save moves every block. Selector fields of the value sweep keep every "
+                          "value whose exact sequence of transfers is new.")
+CLAIMS["C02"]["text"] += (" Further inputs: the vertex format changed through the API with no partition rebuild, a Starfield model under stream "
+                          "173 (as a file and set through the API); the named answers count the bone entries of a skin.")
+CLAIMS["C03"]["text"] += " Further variants: unknown types with names of 64, 93 and 200 characters; the file read from a forward-only stream."
+CLAIMS["C06"]["text"] += " Every other random walk starts from Create() in the object that held the file."
+CLAIMS["C07"]["text"] += (" Further inputs: files saved behind other content of a stream, copies of models (constructor, assignment into a used "
+                          "object, CopyFrom); string indices inside opaque blocks are located through the same file under its real type names.")
+CLAIMS["C08"]["text"] += (" Both builds must also take the bytes for the same fields: the multiset of (kind, size, value) of every field "
+                          "written on the re-save is compared (clause SameFieldValues); the sweep settings of both builds are united.")
+CLAIMS["C09"]["text"] += " A mesh with degenerate triangles is among the fixed meshes."
+CLAIMS["C10"]["text"] += " Also: a plain skin instance converted by SetShapePartitions, and vertices that no bone has a weight for."
+CLAIMS["C11"]["text"] += " Starfield shapes carry two mesh slots; selecting the second on one model (SelectLod) is an edit of that model only."
+CLAIMS["C12"]["text"] += " Two shapes sharing one geometry data block are among the enumerated features."
+CLAIMS["C13"]["text"] += " A triangle list is also set on a shape whose list was emptied first."
+CLAIMS["C14"]["text"] += (" Further sources: an NiTriStrips shape, a skin whose bones are nodes of derived kinds (clause "
+                          "BonesCarryTheSourcesContent). The clone is then edited (vertices moved through NifFile, normals dropped through "
+                          "NiShape) and the destination itself saved: the source keeps its geometry and the edit is what the destination reloads.")
+CLAIMS["C17"]["text"] += (" Partition assignment is also the first operation on a loaded model whose partitions are stored as strips, followed "
+                          "either by a rebuild or by save and reload.")
+CLAIMS["C18"]["text"] += " Index maps carry other negative markers than -1."
+CLAIMS["C20"]["text"] += " Rotation vectors of any length up to four turns: orthonormal result, and whole turns do not matter."
+
 def main():
     props = [json.loads(l) for l in open(os.path.join(ROOT, "properties.jsonl"))]
     commits = subprocess.run(["git", "-C", "/repo", "log", "--format=%H %s", "32497ec..HEAD"], stdout=subprocess.PIPE).stdout.decode().splitlines()
